@@ -203,8 +203,12 @@ func (m c02) check(c *fw.Ctx, k *insCase) {
 	}
 }
 
-func mkHost(kind string, tab []gts.Feature, b []byte) gts.Sequence {
+func mkHost(kind string, tab []gts.Feature, b []byte, keepOrder ...bool) gts.Sequence {
 	t := gen.SortedTable(gen.CloneTable(tab))
+	if len(keepOrder) > 0 && keepOrder[0] {
+		// the table as listed (a file in its own order, a hand-built table).
+		t = gts.FeatureSlice(gen.CloneTable(tab))
+	}
 	// residues with spare capacity behind them (a buffer that was appended
 	// to), the spare bytes set to a value no residue has.
 	bb := append(make([]byte, 0, len(b)+24), b...)
@@ -216,6 +220,26 @@ func mkHost(kind string, tab []gts.Feature, b []byte) gts.Sequence {
 			Date: seqio.Date{Year: 2020, Month: 1, Day: 1}}, Table: t, Origin: seqio.NewOrigin(bb)}
 	}
 	return gts.New(nil, t, bb)
+}
+
+// hostMemoryTouched looks at a host made by mkHost after an operation on it:
+// its residues, and the sentinel bytes in the spare capacity behind them (what
+// a neighbour carved from the same buffer would hold), are as they were.
+func hostMemoryTouched(host gts.Sequence, hostB []byte) string {
+	if _, isGB := host.(seqio.GenBank); isGB {
+		return ""
+	}
+	b := host.Bytes()
+	if !bytes.Equal(b, hostB) {
+		return fmt.Sprintf("the argument now reads %q", b)
+	}
+	full := b[:cap(b)]
+	for i := len(b); i < len(full); i++ {
+		if full[i] != 0x7f {
+			return fmt.Sprintf("byte %d behind the argument's residues changed from 0x7f to %#x", i-len(b), full[i])
+		}
+	}
+	return ""
 }
 
 func (m c02) Run(c *fw.Ctx) {
